@@ -152,6 +152,28 @@ Definition complete_results (p : params) (live : list (Z * vec)) (rq : request) 
     end
   else true.
 
+(** the same for the code-based kinds, with each live vector's score recomputed from the
+    implementation's own codes, codebooks and centroids (PQ scans everything; IVFPQ at full probe) *)
+Definition complete_code_results (p : params) (live : list (Z * vec)) (im : vstate) (rq : request) (pq : vec)
+           (r : list (Z * Z)) : bool :=
+  let E := flat_map (fun lv =>
+              if (match r_docids rq with [] => true | ds => memz (fst lv) ds end)
+              then match find_entry im (fst lv) with
+                   | Some (li, e) => let d := F32.canon (pq_kind_score p im pq li e) in
+                                     if thr_ok rq d then [(fst lv, d)] else []
+                   | None => []
+                   end
+              else []) live in
+  if negb (r_cutoff rq =? -1) then true
+  else if forallb (fun x => pair_in x E) r then
+    (Z.of_nat (length r) =? sanitizeK (r_k rq) (Z.of_nat (length E))) &&
+    match r with
+    | [] => true
+    | _ => let lastk := F32.key (snd (last r (0, 0))) in
+           forallb (fun c => memz (fst c) (map fst r) || (lastk <=? F32.key (snd c))) E
+    end
+  else true.
+
 Definition full_probe (p : params) (rq : request) : bool :=
   match p_kind p with
   | KFlat => true
@@ -260,6 +282,10 @@ Definition step_check (p : params) (h : hstate) (o : vop) : hstate + list Z :=
                         end &&
                         match single, h_impl h, p_kind p with
                         | Some pq, Some im, KIVF => probe_specb p (h_live h) im rq pq out
+                        | Some pq, Some im, KPQ => complete_code_results p (h_live h) im rq pq out
+                        | Some pq, Some im, KIVFPQ =>
+                            negb ((r_nprobes rq <=? 0) || (p_nlist p <=? r_nprobes rq)) ||
+                            complete_code_results p (h_live h) im rq pq out
                         | _, _, _ => true
                         end in
           if negb (err =? 0) then inr (verdict false false [h_i h; 0])
